@@ -27,6 +27,10 @@ type c01Spec struct {
 
 // c01Pool generates the rule lines of one case and the specs behind the
 // spec-based ones (for request targeting).
+// c01ForceCrowd, when positive, makes c01Pool add a crowd of that size (one
+// thorough case has more rules under one window than a 16-bit counter holds).
+var c01ForceCrowd int
+
 func c01Pool(c *core.Ctx, maxRules int) (lines []string, specs []c01Spec) {
 	n := 20 + c.Rng.Intn(maxRules-20)
 	restr := func(s *gen.Spec) {
@@ -110,6 +114,26 @@ func c01Pool(c *core.Ctx, maxRules int) (lines []string, specs []c01Spec) {
 			specs = append(specs, c01Spec{s, ph})
 		}
 	}
+	if c01ForceCrowd > 0 || c.Rng.Intn(10) == 0 {
+		// A crowd: hundreds of rules whose only five-character window is the
+		// same one (what a list of per-site rules for one ad path looks like),
+		// each with its own $domain or host tail, so that requests single out
+		// individual members wherever they sit in the bucket.
+		win := []string{"/ads.", "ad01/", "=ad1&", "||ab.io^", "/px.g"}[c.Rng.Intn(5)]
+		m := 257 + c.Rng.Intn(400)
+		if c01ForceCrowd > 0 {
+			m = c01ForceCrowd
+		}
+		for i := 0; i < m; i++ {
+			s := &gen.Spec{Pattern: win, Domains: []gen.Val{{Name: "site" + strconv.Itoa(i) + ".example"}}}
+			if c.Rng.Intn(8) == 0 {
+				s.Important = true
+			}
+			lines = append(lines, s.Render(c.Rng))
+			specs = append(specs, c01Spec{s, ""})
+		}
+		c.Event("lists_with_a_crowded_shortcut", 1)
+	}
 
 	return lines, specs
 }
@@ -180,7 +204,7 @@ func c01Requests(c *core.Ctx, lines []string, specs []c01Spec, n int) (out []*ge
 // c01Split distributes lines (already permuted) over 1..4 lists.
 func c01Split(c *core.Ctx, lines []string) (ids []int, contents []string) {
 	nl := 1 + c.Rng.Intn(4)
-	pool := []int{0, 1, -1, math.MinInt32, math.MaxInt32, 7, 1 << 20}
+	pool := []int{0, 1, -1, math.MinInt32, math.MaxInt32, 7, 1 << 20, 17, 33, 257}
 	perm := c.Rng.Perm(len(pool))
 	parts := make([][]string, nl)
 	for _, l := range lines {
@@ -361,7 +385,12 @@ func c01Run(c *core.Ctx, idx int) {
 		c01ScratchDirs = nil
 	}()
 	maxRules := map[core.Tier]int{core.Quick: 160, core.Thorough: 400}[c.Env.Tier]
+	if c.Env.Tier == core.Thorough && idx == nReal {
+		c01ForceCrowd = 65536 + 300
+		c.Event("lists_with_more_than_65536_rules_under_one_shortcut", 1)
+	}
 	lines, specs := c01Pool(c, maxRules)
+	c01ForceCrowd = 0
 	reqs := c01Requests(c, lines, specs, 30)
 
 	type variant struct {
@@ -406,7 +435,7 @@ func c01Run(c *core.Ctx, idx int) {
 				// The engine is usable while it grows: asked in between, it
 				// answers for the rules added so far (and nothing it did then
 				// may stand in the way of the rules added later).
-				if c.Rng.Intn(12) == 0 && len(reqs) > 0 {
+				if c.Rng.Intn(12) == 0 && len(reqs) > 0 && (len(lines) < 5000 || len(added)%512 == 0) {
 					q := reqs[c.Rng.Intn(len(reqs))]
 					req := q.Build()
 					wq := c01Witness{Lists: contents, IDs: ids, Request: q}
@@ -486,6 +515,7 @@ func init() {
 		Level: "exploration",
 		Rule: "per case a pool of 20..160 (thorough 400) rule lines mixing the three index paths (shortcut >= 5 bytes; short shortcut + $domain incl. wildcard and hash-colliding values; neither incl. any-URL shortcuts and regexes), colliding 5-byte windows, match-case, duplicates and inert lines, inserted in 3..5 random permutations and splits into 1..4 lists with ids from {0,1,-1,MinInt32,MaxInt32,...}; " +
 			"30 requests per pool (aimed at rules, shortcut at the very end of the URL, URLs of 0..5 bytes, repeated windows, > 4 KiB, colliding windows and source hosts, hostname requests with client/ctag/dnstype); plus the three bundled real lists against sampled requests.json entries; " +
+			"one list in ten holds a crowd of 257..656 rules under ONE five-character window (thorough: one case with 65 836), each singled out by its own $domain; " +
 			"oracle = Match of independently scanned rule objects over the whole storage, both inclusions; non-trivial = evaluation in which a lookup table produced at least one candidate (hook counters); distinct by (request, lists)",
 		Assumptions: []string{
 			"results are compared as sets of rule texts (tables legitimately de-duplicate or repeat)",
